@@ -998,9 +998,100 @@ func genLayouts(p *pkgInfo, out string) {
 		b := norm(src(fd.Body))
 		treadNoPut = !strings.Contains(b, "readBufPool.Put(") && strings.Contains(b, "readBufPool.Get()")
 	}
+	// C10 (D20): recycled response objects.  sendRecv gives its response back to the pool by a
+	// defer; when writing the request failed it first removes its pending entry and drains the
+	// channel (the `sendFail` move of Conc/RespPool.lean); the channel has room for one value.
+	leaves, putDeferred, capOne := sendRecvFacts(p)
+	fmt.Fprintf(&sb, "def sendFailureLeavesNothing : Bool := %v\n", leaves)
+	fmt.Fprintf(&sb, "def responsePutOnlyDeferred : Bool := %v\n", putDeferred)
+	fmt.Fprintf(&sb, "def doneChannelHoldsOne : Bool := %v\n", capOne)
 	fmt.Fprintf(&sb, "def treadNeverReleasesItsBuffer : Bool := %v\n", treadNoPut)
 	fmt.Fprintf(&sb, "def sendBufferReleasedAfterWrite : Bool := %v\n", sendAfter)
 	fmt.Fprintf(&sb, "def recvBufferReleasedOnReturn : Bool := %v\n", recvPut)
 	sb.WriteString("\nend P9.Gen\n")
 	writeIfChanged(filepath.Join(out, "Layouts.lean"), sb.String())
+}
+
+// sendRecvFacts reads the three facts about recycled response objects off (*Client).sendRecv.
+func sendRecvFacts(p *pkgInfo) (leaves, putDeferred, capOne bool) {
+	fd := p.methods["Client.sendRecv"]
+	if fd == nil || fd.Body == nil {
+		return
+	}
+	// the `if err != nil` that follows the statement calling send(...)
+	stmts := fd.Body.List
+	for i, st := range stmts {
+		as, ok := st.(*ast.AssignStmt)
+		if !ok || len(as.Rhs) != 1 {
+			continue
+		}
+		call, ok := as.Rhs[0].(*ast.CallExpr)
+		if !ok {
+			continue
+		}
+		if id, ok := call.Fun.(*ast.Ident); !ok || id.Name != "send" {
+			continue
+		}
+		for j := i + 1; j < len(stmts) && j <= i+3; j++ {
+			ifs, ok := stmts[j].(*ast.IfStmt)
+			if !ok || !strings.Contains(norm(src(ifs.Cond)), "!= nil") {
+				continue
+			}
+			hasDelete, hasDrain := false, false
+			ast.Inspect(ifs.Body, func(n ast.Node) bool {
+				switch x := n.(type) {
+				case *ast.CallExpr:
+					if id, ok := x.Fun.(*ast.Ident); ok && id.Name == "delete" && len(x.Args) == 2 {
+						hasDelete = true
+					}
+				case *ast.SelectStmt:
+					recv, def := false, false
+					for _, c := range x.Body.List {
+						cc := c.(*ast.CommClause)
+						if cc.Comm == nil {
+							def = true
+						} else if strings.Contains(norm(src(cc.Comm)), "<-") && !strings.Contains(norm(src(cc.Comm)), "<- ") {
+							recv = true
+						} else if strings.HasPrefix(norm(src(cc.Comm)), "<-") {
+							recv = true
+						}
+					}
+					hasDrain = recv && def
+				}
+				return true
+			})
+			leaves = hasDelete && hasDrain
+			break
+		}
+	}
+	// responsePool.Put: once in the package, as a defer in sendRecv
+	puts, deferred := 0, 0
+	for _, f := range p.files {
+		ast.Inspect(f, func(n ast.Node) bool {
+			if c, ok := n.(*ast.CallExpr); ok && norm(src(c.Fun)) == "responsePool.Put" {
+				puts++
+			}
+			return true
+		})
+	}
+	ast.Inspect(fd.Body, func(n ast.Node) bool {
+		if d, ok := n.(*ast.DeferStmt); ok && norm(src(d.Call.Fun)) == "responsePool.Put" {
+			deferred++
+		}
+		return true
+	})
+	putDeferred = puts == 1 && deferred == 1
+	// every `chan error` made for a response has capacity one
+	for _, f := range p.files {
+		ast.Inspect(f, func(n ast.Node) bool {
+			vs, ok := n.(*ast.ValueSpec)
+			if !ok || len(vs.Names) != 1 || vs.Names[0].Name != "responsePool" {
+				return true
+			}
+			b := norm(src(vs))
+			capOne = strings.Contains(b, "make(chan error, 1)") && strings.Count(b, "make(chan") == 1
+			return false
+		})
+	}
+	return
 }
